@@ -10,44 +10,15 @@ Require Extraction.
 Require Import ExtrOcamlBasic.
 Set Extraction Optimize.
 
-(** Instances with H := identity (only equality of digests matters to the scan
-    and to patch; see DESIGN.md section 3). *)
-Definition H_id (x : list Z) : list Z := x.
-Definition deq_id : forall a b : list Z, {a = b} + {a <> b} := list_eq_dec Z.eq_dec.
-Definition m_signature (bs : nat) (basis : list Z) := gen_signature (list Z) H_id bs basis.
-Definition m_delta (bs : nat) (sg : signature (list Z)) (src : list Z) :=
-  compute_delta_fast (list Z) H_id deq_id bs sg src.
-Definition m_patch (checked verify : bool) (basis : list Z) (d : delta (list Z)) :=
-  patch (list Z) H_id deq_id checked verify basis d.
-Definition beq_id (a b : list Z) : bool := if deq_id a b then true else false.
-Definition m_greedy (bs : nat) (basis src : list Z) : Z :=
-  match src with [] => 0%Z | _ =>
-    match blocks bs basis with [] => Z.of_nat (length src)
-    | _ => greedy_lit bs beq_id (S (length src)) (full_blocks bs basis) src end end.
-
-(** C19 / C18 *)
+From Copia Require Export Extract.Wrappers.
 From Copia Require Model.Path Model.Glob Model.Plan Model.Listing Model.Reconcile.
 From Copia Require Model.OneWay Model.OneWayExec Model.ShellQuote.
-Definition m_gm := Glob.gm.
-Definition m_glob_match := Glob.glob_match.
-Definition m_glob_match_prefix := Glob.glob_match_prefix.
-Definition m_is_excluded := Glob.is_excluded.
-Definition m_is_excluded_gm := Glob.is_excluded_with Glob.gm.
-Definition m_mm_insert := Plan.mm_insert.
-Definition m_build_plan := Plan.build_plan.
-Definition m_needs_transfer := Plan.needs_transfer.
-Definition m_parse_listing := Listing.parse_listing.
-Definition m_render_listing := Listing.render_listing.
-Definition m_reconcile_path := Reconcile.reconcile_path (list Z) deq_id.
-Definition m_table := Reconcile.table (list Z) deq_id.
-Definition m_fp_insert := @Path.al_insert (list Z) Path.path_cmp (Reconcile.fingerprint (list Z)).
-Definition m_reconcile := Reconcile.reconcile (list Z) deq_id (list Z) Path.path_cmp.
 
 Extraction "model.ml"
   rc_new rc_roll rc_push rc_digest ra rb rcount
   frc_new frc_roll frc_push frc_digest fcount
   rc_new_ck rc_roll_ck rc_push_ck frc_new_ck frc_roll_ck frc_push_ck
-  spec_digest_exec sums
+  spec_digest_exec sums run_ops
   m_signature m_delta m_patch m_greedy lits out_len
   HubExec.hub_exec HubExec.wire_exec HubSeq.refused HubExec.sync_exec
   BisyncExec.bi_hist BisyncExec.bi_init BisyncExec.bi_dry BisyncExec.bi_steps BisyncExec.bi_crash BisyncExec.bi_state
